@@ -442,6 +442,7 @@ namespace ratio
 
       void declare(scope &scp) const override;
       void refine(scope &scp) const override;
+      void refine_supertypes(scope &scp) const; // links this class (and its nested classes) to its base classes: done for all the classes before anything else is refined..
     };
 
     class compilation_unit : public riddle::ast::compilation_unit
